@@ -242,6 +242,13 @@ def decoy_riscv_touch():
     """ANOTHER live RISC-V simulation with other register, memory and program contents is looked at (all its tables) in
     between the operations on the simulation under test: what a simulation shows and does is its own, whatever else
     lives - and is used - in the process."""
+    try:
+        _decoy_riscv_touch()
+    except Exception:
+        _DECOYS.pop("rv", None)  # whatever is wrong with the decoy is not the finding of the check that uses it
+
+
+def _decoy_riscv_touch():
     d = _DECOYS.get("rv")
     _DECOYS["rv_n"] = _DECOYS.get("rv_n", 0) + 1
     if d is None or _DECOYS["rv_n"] % 64 == 0:
@@ -258,6 +265,13 @@ def decoy_riscv_touch():
 
 def decoy_toy_touch():
     """the same for TOY: another live machine is advanced by one HALF cycle and looked at"""
+    try:
+        _decoy_toy_touch()
+    except Exception:
+        _DECOYS.pop("toy", None)
+
+
+def _decoy_toy_touch():
     d = _DECOYS.get("toy")
     if d is None:
         from architecture_simulator.simulation.toy_simulation import ToySimulation
